@@ -464,6 +464,8 @@ def run(ctx):
     core.run_forked(ctx, case_cache_race, [{"shape": [2, 1], "bound": 2}, {"shape": [2, 2], "bound": 1, "variant": "steady"}] + ([{"shape": [2, 2], "bound": 2}, {"shape": [3, 1], "bound": 2}] if ctx.tier != "quick" else []),
                     sub="pool workers sharing the result cache: all interleavings, preemption-bounded", nproc=4, timeout=1800)
     ctx.run_cases(case_shapes, shape_cases(ctx.tier), sub="further shapes / worker counts / unlabelled steps (free-running pool)", chunksize=1)
+    from vf import callerenv
+    callerenv.run(ctx, case_shapes, [{"shape": [2, 2], "strategy": st_, "W": 2, "stamps": True} for st_ in ("towers", "time", "both")], envs=("non-main-thread", "errstate-raise", "warnings-are-errors", "logging-debug-handler", "cwd-elsewhere"))
     ctx.run_cases(case_sessions, [{"edits": list(e_), "strategy": s_, "W": 2} for e_ in (("grid",), ("halo", "forcing"), ("tower", "levels"), ("forcing", "grid")) for s_ in ("towers", "time", "both")], sub="one configuration object through consecutive parallel runs", chunksize=1)
     ctx.run_cases(driverfail.case_failing_step, driverfail.cases(ctx.tier), sub="series with an unusable step / process state: deliver nothing or deliver it right", chunksize=1)
     traces = int(sum(r.get("obs", {}).get("traces", 0) for r in res))
